@@ -20,7 +20,11 @@ pub struct CrashArgs {
     pub seed: u64,
     pub nkeys: u64,
     pub power: bool,
+    /// manual journal persist of the keyspaces / of the database (two independent switches)
     pub manual_persist: bool,
+    pub manual_db: bool,
+    /// batches commit as write transactions of the single-writer database
+    pub tx_batches: bool,
     pub split: bool,
     pub allowed_kf: Vec<String>,
     pub max_behaviours: u64,
@@ -170,6 +174,8 @@ pub fn run_crash(args: &CrashArgs) -> Outcome {
         };
         let mut variant = Variant::from_index(args.seed.wrapping_add(bi as u64) % 16, &[]);
         variant.manual_persist = args.manual_persist;
+        variant.manual_db = args.manual_db;
+        variant.tx_batches = args.tx_batches;
         let dir = fresh_dir(&root, &format!("c{bi}"));
         let img_dir = fresh_dir(&root, &format!("c{bi}_img"));
         std::fs::create_dir_all(&img_dir).ok();
@@ -243,6 +249,7 @@ pub fn run_crash(args: &CrashArgs) -> Outcome {
                 let a = s["act"]["a"].as_str().unwrap_or("");
                 let syncs = a == "Reopen"
                     || (a == "Persist" && s["act"]["mode"].as_str().map_or(false, |m| m != "Buffer"))
+                    || (a == "Batch" && s["act"]["dur"].as_str().map_or(false, |m| m == "SyncData" || m == "SyncAll"))
                     || (a == "Flush" && s["act"]["jrot"].as_bool().unwrap_or(false));
                 if syncs {
                     last = si as i64;
@@ -306,9 +313,10 @@ pub fn run_crash(args: &CrashArgs) -> Outcome {
                         // step had already returned)
                         let after = st_at(si.min(executed as i64 - 1).max(-1));
                         let before = st_at(si - 1);
-                        let lo_manual = if args.manual_persist { sync_points_manual(&steps, si) } else { si - 1 };
+                        let manual_any = args.manual_persist || args.manual_db;
+                        let lo_manual = if manual_any { sync_points_manual(&steps, si, args.manual_persist, args.manual_db) } else { si - 1 };
                         let mut ok = Err(String::new());
-                        if args.manual_persist {
+                        if manual_any {
                             // names: before or after the step in flight; content: one step since
                             // the last persist, the same for every keyspace
                             let names_ok = |m: &BTreeMap<String, (Vec<u64>, bool)>| rec.keys().collect::<Vec<_>>() == m.keys().collect::<Vec<_>>();
@@ -407,6 +415,8 @@ pub fn run_crash(args: &CrashArgs) -> Outcome {
                 "kind": if args.power { "power-loss-image" } else { "crash-image" },
                 "behaviour_index": bi, "variant": variant.describe(), "seed": seed, "nkeys": args.nkeys,
                 "manual_persist": args.manual_persist,
+                "manual_persist_database": args.manual_db,
+                "batches_as_transactions": args.tx_batches,
                 "first_bad_image": bad,
                 "syscalls": ctl.log.iter().map(|e| json!([e.n, e.marker, e.op, e.path, e.len, e.ret])).collect::<Vec<_>>(),
                 "behaviour": steps,
@@ -439,14 +449,20 @@ pub fn run_crash(args: &CrashArgs) -> Outcome {
 
 /// With manual journal persist, a process crash may lose everything after the last persist of
 /// any mode (or reopen): returns the index of that step (or -1).
-fn sync_points_manual(steps: &[Value], si: i64) -> i64 {
+/// Last step before `si` after which everything acknowledged so far is in the OS (process-crash
+/// lower bound with manual journal persist): reopen, persist of any mode, a journal rotation, a
+/// batch that persists (explicit durability, or the default one when the database is not in manual
+/// mode), a single write when the keyspaces are not in manual mode.
+fn sync_points_manual(steps: &[Value], si: i64, manual_ks: bool, manual_db: bool) -> i64 {
     let mut last = -1;
     for (j, s) in steps.iter().enumerate() {
         if j as i64 >= si {
             break;
         }
         let a = s["act"]["a"].as_str().unwrap_or("");
-        if a == "Reopen" || a == "Persist" || (a == "Flush" && s["act"]["jrot"].as_bool().unwrap_or(false)) {
+        let batch_persists = a == "Batch" && (!manual_db || s["act"]["dur"].as_str().map_or(false, |d| d != "none"));
+        let single_persists = !manual_ks && (a == "Insert" || a == "Remove" || a == "Clear");
+        if a == "Reopen" || a == "Persist" || (a == "Flush" && s["act"]["jrot"].as_bool().unwrap_or(false)) || batch_persists || single_persists {
             last = j as i64;
         }
     }
